@@ -78,6 +78,20 @@ Theorem C11_budget_terminates_list : forall fuel st s x s' tr,
 Proof. exact no_fuel_list. Qed.
 Print Assumptions C11_budget_terminates_list.
 
+(* Renewal: once the faults are over, a chunk read completes from ANY reservation state -
+   still valid, cancelled by the device, or a stale id - by renewing at most once (with the
+   reservation command of the same store, C11_same_store), and returns the exact slice.
+   PARTIAL with respect to "the read then completes": this is the chunk level; that the
+   whole record / list read completes after cancellations at any request index is checked
+   on the implementation by the oracle of the correspondence run, not proved. *)
+Theorem C11_renewal_completes_partial : forall st resv rid off len s tr rec nx,
+  s_plan s = [] -> lookup (recs_of st s) (w16 rid) = Some (rec, nx) -> byteZ len <= s_limit s ->
+  exists s' tr', run (get_chunk st resv rid off len) sdr_dev s tr =
+                   (Ok (w16 nx, slice (byteZ off) (byteZ len) rec), s', tr') /\
+                 s_plan s' = [] /\ same_content s s' /\ valid_of st s' = true.
+Proof. exact renewal_completes. Qed.
+Print Assumptions C11_renewal_completes_partial.
+
 (* F11b, for the record: the unrepaired wiring of Sdr._get_sdr_chunk sends a request of the
    other store (ReserveDeviceSdrRepository) after a cancellation *)
 Theorem C11_same_store_unrepaired_refuted :
